@@ -40,6 +40,18 @@ tx mint_v2(quantity: Int) {
     output { to: Sender, amount: source - Ada(2000000) - fees, }
     cardano::plutus_witness { version: 2, script: 0x5101010023259800a518a4d136564004ae69, }
 }
+type Stamp { current_slot: Int, expiry_slot: Int, }
+tx delayed(quantity: Int) {
+    input source { from: Sender, min_amount: Ada(quantity) + fees, }
+    output { to: Receiver, amount: Ada(quantity), }
+    output { to: Sender, amount: source - Ada(quantity) - fees, }
+    validity { since_slot: 101684141, until_slot: 101694141, }
+}
+tx reads_tip(quantity: Int) {
+    input source { from: Sender, min_amount: Ada(quantity) + fees, }
+    output { to: Receiver, amount: Ada(quantity), datum: Stamp { current_slot: tip_slot(), expiry_slot: tip_slot() + 600, }, }
+    output { to: Sender, amount: source - Ada(quantity) - fees, }
+}
 tx min_utxo_first(quantity: Int) {
     input source { from: Sender, min_amount: Ada(quantity) + fees, }
     output first { to: Receiver, amount: min_utxo(first), }
@@ -105,12 +117,12 @@ fn main() {
     let steps = [
         Step::Resolve("one_output"), Step::Resolve("two_outputs"), Step::Resolve("uses_min_utxo"), Step::Resolve("min_utxo_first"),
         Step::ResolveFailing("two_outputs"), Step::Compile("one_output"), Step::Compile("two_outputs"),
-        Step::Resolve("mint_v3"), Step::Resolve("mint_v2"),
+        Step::Resolve("mint_v3"), Step::Resolve("mint_v2"), Step::Resolve("delayed"),
     ];
     let mut histories: Vec<Vec<Step>> = vec![vec![]];
     for a in steps { histories.push(vec![a]); }
     for a in steps { for b in steps { histories.push(vec![a, b]); } }
-    let targets = ["one_output", "two_outputs", "uses_min_utxo", "min_utxo_first", "mint_v2", "mint_v3"];
+    let targets = ["one_output", "two_outputs", "uses_min_utxo", "min_utxo_first", "mint_v2", "mint_v3", "reads_tip", "delayed"];
     let mut cases = 0u64;
     for target in targets {
         let mut fresh = compiler(44, 155381, None);
@@ -126,7 +138,7 @@ fn main() {
                 _ => false,
             };
             if !same {
-                let class = if target.contains("min_utxo") { "min-utxo-sized-from-remembered-body" } else if target.starts_with("mint_v") { "script-data-from-remembered-language" } else { "other" };
+                let class = if target.contains("min_utxo") { "min-utxo-sized-from-remembered-body" } else if target.starts_with("mint_v") { "script-data-from-remembered-language" } else if target == "reads_tip" { "chain-tip-moved-by-an-earlier-transaction" } else { "other" };
                 println!("VERIF-WITNESS obligation=c20_pipeline/resolve_tx#history fn=resolve_tx input=history {h:?} then resolve {target} class={class} observed=fresh: {} / used: {} required=the same outcome as a fresh, identically configured instance",
                     show(&a), show(&b));
             }
